@@ -7,7 +7,11 @@
   exp_from_model(model): from the generator's abstract model (vf.gen.xrefgen) — the oracle proper.
   exp_from_vms(vms): from shipped files: raw code units of every method swept with vf.gen.dalvik_spec, pool indices
   resolved through the DEX parser (androguard.core.dex), *not* through analysis.py.
-* analyse(): DEX bytes -> Analysis (add in the given order, create_xref once).
+* analyse(): DEX bytes -> Analysis (add in the given order, create_xref once). With renames=[...] (the model's 'renames'
+  history) the renames are performed on the loaded files after every add() and before create_xref(); rename_exp() gives
+  the expectation after the same history: a rename changes the name of ONE field_id / method_id of ONE file, so the
+  definition and every instruction of that file that refers to it show the new name, and references from other files
+  (their own id items, old name) no longer name a defined member. Which instruction refers to which item is unchanged.
 * snapshot(): everything the Analysis reports, by name (classes, methods, fields, strings, all xref getters, call graph).
 * derive(): by-name expectation for the invoke/field/string/class-usage clauses, under the statement's semantics or under
   the model of the known array-receiver defect (receiver '[I' dropped, '[Lx;' re-attributed to 'Lx;').
@@ -50,6 +54,64 @@ def exp_from_model(model):
         sites[amk(k)] = out
     return {'sites': sites, 'defined_methods': {amk(k) for k in X.defined_methods(model)},
             'defined_fields': set(X.defined_fields(model)), 'internal': set(X.internal_classes(model))}
+
+
+def rename_exp(exp, dexof, renames):
+    """The expectation after the renames of a history (see module docstring). Renames of items the model does not define
+    (after a shrinking step removed them) are ignored, as in perform_renames()."""
+    fmap, mmap = {}, {}
+    for r in renames or ():
+        if r[0] == 'f':
+            fk = (r[1], r[2], r[3])
+            if fk in exp['defined_fields']:
+                fmap[(dexof[r[1]], fk)] = (r[1], r[4], r[3])
+        else:
+            mk = (r[1], r[2], desc(r[3], r[4]))
+            if mk in exp['defined_methods']:
+                mmap[(dexof[r[1]], mk)] = (r[1], r[5], mk[2])
+    sites = {}
+    for mk, sl in exp['sites'].items():
+        d = dexof[mk[0]]
+        out = []
+        for (off, op, kind, tgt) in sl:
+            if kind == 'fld':
+                tgt = fmap.get((d, tgt), tgt)
+            elif kind == 'inv':
+                tgt = mmap.get((d, tgt), tgt)
+            out.append((off, op, kind, tgt))
+        sites[mmap.get((d, mk), mk)] = out
+    return {'sites': sites,
+            'defined_methods': {mmap.get((dexof[k[0]], k), k) for k in exp['defined_methods']},
+            'defined_fields': {fmap.get((dexof[k[0]], k), k) for k in exp['defined_fields']},
+            'internal': set(exp['internal'])}
+
+
+def perform_renames(vms, renames):
+    """set_name() on the EncodedField / EncodedMethod objects named by the history (all located first, by their original
+    names, then renamed in history order). -> number of renames performed."""
+    todo = []
+    try:
+        fields, methods = {}, {}
+        for vm in vms:
+            for c in vm.get_classes():
+                for f in c.get_fields():
+                    fields[field_key(f)] = f
+                for m in c.get_methods():
+                    methods[method_key(m)] = m
+        for r in renames or ():
+            if r[0] == 'f':
+                item = fields.get((r[1], r[2], r[3]))
+                new = r[4]
+            else:
+                item = methods.get((r[1], r[2], desc(r[3], r[4])))
+                new = r[5]
+            if item is not None:
+                todo.append((item, new))
+        for item, new in todo:
+            item.set_name(new)
+    except Exception:
+        raise AnalysisFailure('set_name', traceback.format_exc())
+    return len(todo)
 
 
 def exp_from_vms(vms, ctx=None):
@@ -144,7 +206,7 @@ def parse(data):
         raise AnalysisFailure('DEX', traceback.format_exc())
 
 
-def analyse_vms(vms):
+def analyse_vms(vms, renames=None):
     from androguard.core.analysis import analysis
     try:
         dx = analysis.Analysis()
@@ -152,6 +214,8 @@ def analyse_vms(vms):
             dx.add(vm)
     except Exception:
         raise AnalysisFailure('Analysis.add', traceback.format_exc())
+    if renames:
+        perform_renames(vms, renames)
     try:
         dx.create_xref()
     except Exception:
@@ -159,11 +223,11 @@ def analyse_vms(vms):
     return dx
 
 
-def analyse(datas, order=None):
+def analyse(datas, order=None, renames=None):
     """datas: list of DEX bytes; order: permutation of range(len(datas)) (add order). -> (dx, vms in add order)"""
     order = list(order) if order is not None else list(range(len(datas)))
     vms = [parse(datas[i]) for i in order]
-    return analyse_vms(vms), vms
+    return analyse_vms(vms, renames), vms
 
 
 def method_key(m):
@@ -342,6 +406,19 @@ def _candidates(model):
     """smaller models, most aggressive first (deterministic)."""
     import copy
     n = len(model['classes'])
+    if model.get('bulk'):
+        # a large-pool model is expensive to evaluate: the only reduction tried is dropping the fillers altogether
+        m = copy.deepcopy(model)
+        del m['bulk']
+        yield m
+        return
+    if model.get('renames'):
+        for i in range(len(model['renames'])):
+            m = copy.deepcopy(model)
+            del m['renames'][i]
+            if not m['renames']:
+                del m['renames']
+            yield m
     if model['ndex'] > 1:
         m = copy.deepcopy(model)
         for c in m['classes']:
@@ -430,7 +507,10 @@ def collect(ctx, strategy, run_model, n, salt, budget_s=4.0, skip=lambda bucket:
         case = unhex(case)
         if not isinstance(case, dict) or case.get('mode') != 'model':
             continue
-        small = shrink_model(ctx, run_model, bucket, X.normalize(case['model']), budget_s)
+        orig = X.normalize(case['model'])
+        small = shrink_model(ctx, run_model, bucket, orig, budget_s)
+        if small == orig:
+            continue                            # nothing smaller found: the recorded case stays
         ev, nt = ctx.evaluations, set(ctx.nontrivial)
         run_model(ctx, small, record=False)
         ctx.evaluations, ctx.nontrivial = ev, nt
